@@ -2,6 +2,7 @@ package lach
 
 import (
 	"math/rand"
+	"sort"
 
 	"github.com/Fantom-foundation/lachesis-base/inter/dag/tdag"
 	"github.com/Fantom-foundation/lachesis-base/inter/idx"
@@ -19,6 +20,8 @@ type PlayOpts struct {
 	BigIdx       bool
 	StartEpoch   int     // >1: the instance is Reset() directly to that epoch and fed only later events
 	ColdIndex    bool    // restart once before the final all-pairs queries (cold caches)
+	RichBuilds   float64 // probability of a speculative Build of the creator's next event on top of ALL current heads, right before its real (sparser) event
+	Rebuilds     float64 // probability that the BuildEach copy is built twice: first with the self-parent only, then again (same object) with all parents
 	BuildHistory int     // >0: once per epoch, restart, then do this many sparse speculative builds at the same epoch/Lamport before building a root
 }
 
@@ -189,6 +192,30 @@ func Play(r *rand.Rand, s *Scenario, o PlayOpts, rec *Recorder) (blocks []BlockR
 					rec.BuildLine(s, bev, te.Frame())
 				}
 			}
+			if o.RichBuilds > 0 && ev.SP != 0 && r.Float64() < o.RichBuilds {
+				// what the creator could have built: same self-parent, every other validator's latest event as parent
+				latest := map[idx.ValidatorID]*Ev{}
+				for _, d := range done {
+					latest[d.Cr] = d
+				}
+				var others []*Ev
+				for cr, d := range latest {
+					if cr != ev.Cr {
+						others = append(others, d)
+					}
+				}
+				sort.Slice(others, func(i, j int) bool { return others[i].ID < others[j].ID })
+				bev, te := s.mkEvent(ep.Epoch, ev.Cr, s.ByID[ev.SP], others)
+				err, crit := guarded(func() error { return in.L.Build(te) })
+				if crit {
+					rec.Crit(err.Error())
+					return in.Blocks, true
+				}
+				if err == nil {
+					rec.BuildLine(s, bev, te.Frame())
+					rec.Stats["rich_builds"]++
+				}
+			}
 			if o.BuildEach {
 				cp := &tdag.TestEvent{}
 				cp.SetEpoch(ev.E.Epoch())
@@ -196,6 +223,22 @@ func Play(r *rand.Rand, s *Scenario, o PlayOpts, rec *Recorder) (blocks []BlockR
 				cp.SetSeq(ev.E.Seq())
 				cp.SetLamport(ev.E.Lamport())
 				cp.SetParents(ev.E.Parents())
+				if o.Rebuilds > 0 && len(ev.E.Parents()) > 1 && ev.SP != 0 && r.Float64() < o.Rebuilds {
+					// an emitter that builds, learns about more heads, and builds the same object again
+					cp.SetParents(ev.E.Parents()[:1])
+					err, crit := guarded(func() error { return in.L.Build(cp) })
+					if crit {
+						rec.Crit(err.Error())
+						return in.Blocks, true
+					}
+					if err == nil {
+						first := *ev
+						first.Ps = ev.Ps[:1]
+						rec.BuildLine(s, &first, cp.Frame())
+						rec.Stats["rebuilds"]++
+					}
+					cp.SetParents(ev.E.Parents())
+				}
 				err, crit := guarded(func() error { return in.L.Build(cp) })
 				if crit {
 					rec.Crit(err.Error())
@@ -208,8 +251,9 @@ func Play(r *rand.Rand, s *Scenario, o PlayOpts, rec *Recorder) (blocks []BlockR
 			// a history of speculative builds in front of the build of a root (same epoch and Lamport time)
 			if o.BuildHistory > 0 && !histDone[ep.Epoch] && ev.SP != 0 && ev.Frame > s.ByID[ev.SP].Frame && len(ev.Ps) > 1 {
 				histDone[ep.Epoch] = true
-				if err := in.Restart(); err != nil {
-					panic(err)
+				if err, _ := guarded(in.Restart); err != nil {
+					rec.Crit("restart: " + err.Error())
+					return in.Blocks, true
 				}
 				rec.RestartLine(in)
 				sp := s.ByID[ev.SP]
@@ -300,8 +344,9 @@ func Play(r *rand.Rand, s *Scenario, o PlayOpts, rec *Recorder) (blocks []BlockR
 				}
 			}
 			if o.RestartEvery > 0 && accepted%o.RestartEvery == 0 {
-				if err := in.Restart(); err != nil {
-					panic(err)
+				if err, _ := guarded(in.Restart); err != nil {
+					rec.Crit("restart: " + err.Error())
+					return in.Blocks, true
 				}
 				rec.RestartLine(in)
 			}
@@ -310,8 +355,9 @@ func Play(r *rand.Rand, s *Scenario, o PlayOpts, rec *Recorder) (blocks []BlockR
 			// the stream of this epoch is exhausted and the instance is still in it
 			if o.FCAllPairs {
 				if o.ColdIndex {
-					if err := in.Restart(); err != nil {
-						panic(err)
+					if err, _ := guarded(in.Restart); err != nil {
+						rec.Crit("restart: " + err.Error())
+						return in.Blocks, true
 					}
 					rec.RestartLine(in)
 				}
